@@ -166,10 +166,13 @@ protected:
   PerBackend& b;
 
   void destruct() {
+    if (offset == ~0U)
+      return;
     auto& tp = getThreadPool();
     for (unsigned n = 0; n < tp.getMaxSockets(); ++n)
       reinterpret_cast<T*>(b.getRemote(tp.getLeaderForSocket(n), offset))->~T();
     b.deallocOffset(offset, sizeof(T));
+    offset = ~0U;
   }
 
 public:
@@ -187,10 +190,11 @@ public:
   }
 
   PerSocketStorage(PerSocketStorage&& o)
-      : offset(std::move(o.offset)), b(getPPSBackend()) {}
+      : offset(o.offset), b(getPPSBackend()) {
+    o.offset = ~0U;
+  }
   PerSocketStorage& operator=(PerSocketStorage&& o) {
-    destruct();
-    offset = std::move(o.offset);
+    std::swap(offset, o.offset);
     return *this;
   }
 
